@@ -100,6 +100,14 @@ prop('C01', 'model_checking',
      'cross-checked against TLC-computed tool verdicts for every document', TOOL_NOTE,
      'TLA+ attacker/tree model + TLC + replay of generated documents', 'section 5 C01')
 
+prop('C03', 'model_checking',
+     'SPKeys.tla models the certificate selection of _check_signature (metadata signing/use-less keys of the claimed issuer, '
+     'embedded certificates only when the flag is off and metadata holds none) and one tool run per candidate; TLC checks it '
+     'against the contract on all 1 680 scenarios (7 key-descriptor layouts x claimed issuer x real signing key x embedded '
+     'certificate x flag x signature level); all are replayed with real RSA keys and template-written metadata, and the '
+     'stand-in log must show a successful verification under the real signing key for every acceptance', TOOL_NOTE,
+     'TLA+ scenario spec + TLC + exhaustive replay', 'section 5 C03')
+
 
 def main():
     props = [json.loads(l) for l in open(os.path.join(VERIF, 'properties.jsonl'))]
